@@ -345,9 +345,10 @@ def enumerate_cuts_mp(eff: list[dict], root: str, fine: bool):
 
 PLANS = {
     "quick": [("fb", "root2"), ("fb", "subs"), ("npz", "root2"),
-              ("npz", "subs"), ("tfrec", "root2"), ("fb", "mp")],
+              ("npz", "subs"), ("tfrec", "root2"), ("fb", "mp"),
+              ("fb", "nest"), ("tfrec", "nest")],
     "thorough": [(f, h) for f in ("fb", "npz", "tfrec")
-                 for h in ("root2", "subs", "mp")],
+                 for h in ("root2", "subs", "nest", "mp")],
 }
 
 
